@@ -107,3 +107,13 @@ PROPS['C11']['level_text'] = ("Proved for all filter trees and all value strings
     "whenever each value is written as esc(esc(v)); that side condition is proved for every value without a double quote (backslashes included, after the fix) and fails for values with a double quote (known finding)")
 PROPS['C13']['level_text'] = ("Proved: list rendering (one begin/end block for N >= 2, the bare command for N = 1) for all lists, and positional pairing of all eight tuple impls (expanded from the macro) against ghost command/response specs of the Command trait. "
     "The Vec<C> impl is iterator-adaptor code outside Verus' reach: bounded stand-in listpair (by parametricity nearly exhaustive); the framing literals are decided by execution")
+
+PROPS['C17'] = {'units': ['C'], 'spec_tags': ['sess'], 'bounded': [],
+    'trusted': ['ENVIRONMENT MODEL (hypothesis of the property, introduced by `assume` at the four request sites of Client::album_art and nowhere else): the server holds, per URI, an optional embedded picture and an optional cover file (bytes + MIME type), '
+                'knows readpicture or answers it with error code 5, has a chunk limit >= 1, and answers every albumart/readpicture request at offset o either with an error or with the total size, the type and the bytes [o, min(o+limit, size)); albumart carries no type field',
+                'the reply of a typed command is what Client::command returns; its relation to the frame is the separately proved contract of AlbumArt::from_frame (C17.album_art.*) and Client::command (frame of the right request: C01)',
+                TRUSTED_ASYNC, TRUSTED_BYTES, TRUSTED_STD,
+                'observation (outside the quantifier): a server sending EMPTY chunks (limit 0) would make the loop repeat the same offset forever'],
+    'level_text': "Proved for all picture sizes, chunk limits >= 1, both sources and every error placement, relative to an explicit model of an honest server: the result is byte-identical to the picture, carries the embedded picture's MIME type, falls back exactly when readpicture yields nothing or is unknown (code 5), "
+                  "reports absence exactly when neither source has data, propagates every other error (`?`), issues requests at strictly increasing offsets and terminates (decreases clause)",
+    'level_note': 'the environment model is an assumption (listed); concurrency with other callers is covered by C01 (each request gets its own reply)'}
